@@ -28,6 +28,7 @@ fn build(cfg: &[u16]) -> Built {
         (K::Who, 4),
         (K::Whois, 4),
         (K::Privmsg, 3),
+        (K::CapPost, 3),
     ]);
     // half of the cases have a channel declared in the configuration (it persists while empty)
     let mut cfg = CfgSpec::default();
